@@ -130,6 +130,42 @@ class Summaries:
         return {"fresh"}
 
 
+_EFFECTS = {}
+
+
+def field_effects(prog, S, g):
+    """stores the helper g makes into fields of the object a parameter points to, when the stored value is fresh:
+    [(parameter index, lvalue text suffix after the parameter name)].  A store guarded only by a tag test of the
+    same field ("copy it if it is a heap object") counts: only heap objects can be modified in place, so after the
+    call every value of that field that matters is a fresh copy."""
+    key = (g.file, g.name)
+    if key in _EFFECTS:
+        return _EFFECTS[key]
+    out = []
+    pnames = {g.vars[v]["n"]: k for k, v in enumerate(g.params)}
+    for i, nd in enumerate(g.nodes):
+        if nd["k"] != "bin" or nd["o"] != "=":
+            continue
+        l = g.strip(nd["c"][0])
+        if g.nodes[l]["k"] != "mem":
+            continue
+        root = l
+        while g.nodes[root]["k"] == "mem":
+            o2, _p = g.mempath(root)
+            root = g.strip(o2)
+        rn = g.nodes[root]
+        if rn["k"] != "ref" or rn.get("d") not in g.params or any(True for (_d, _r) in __import__("cfg").local_defs(g, rn["d"])):
+            continue
+        o = S.expr(g, nd["c"][1], 0, set())
+        if o and all(x in ("fresh", "imm") for x in o):
+            lt = g.txt(l)
+            pn = g.vars[rn["d"]]["n"]
+            if lt.startswith(pn):
+                out.append((g.params.index(rn["d"]), lt[len(pn):]))
+    _EFFECTS[key] = out
+    return out
+
+
 def shared(origins):
     return [o for o in origins if isinstance(o, tuple)]
 
@@ -147,6 +183,7 @@ def run(prog, res, floor=10, prims=None):
                     "place; in-place stores and destination parameters are followed through the helpers to their callers",
                     floor=floor)
     S = Summaries(prog)
+    _EFFECTS.clear()
     funcs = [fn for fn in prog.all_funcs() if fn.unit.name in UNITS and fn.blocks]
     M = {}          # (file, name) -> {(k, depth): (witness text)}
     # 1. direct stores
@@ -350,6 +387,19 @@ def explore(prog, S, fn, site, obj):
                     assume = frozenset(a for a in assume if lt not in a[0])
             elif nd["k"] == "decl" and nd.get("c") and nd.get("d") == rootv:
                 st = assign(st, root, nd["c"][0])
+            elif nd["k"] == "call" and nd.get("o"):
+                callee = prog.func(nd["o"], fn.unit)
+                if callee is not None and callee.blocks and callee is not fn:
+                    args = nd["c"][1:]
+                    for (k, suffix) in field_effects(prog, S, callee):
+                        if k < len(args):
+                            t = fn.txt(fn.strip(args[k])) + suffix
+                            if t in tracked:
+                                st = dict(st)
+                                st[t] = frozenset({"fresh"})
+                                for t2 in tracked:
+                                    if t2.startswith(t + "->"):
+                                        st[t2] = frozenset({"fresh"})
         if stop:
             continue
         nst = tuple(sorted((k, tuple(sorted(v, key=str))) for k, v in st.items()))
